@@ -162,15 +162,17 @@ def build(name, seed):
         c.exact = False
         c.rtol = 1e-5
     elif name == "NgramVectorizer":
-        c.params = {"ngram_size": r.choice([1, 1, 2, 3]), "ngram_behaviour": r.choice(["exact", "subgrams"])}
+        c.params = {"ngram_size": r.choice([1, 2, 3, 3]), "ngram_behaviour": r.choice(["exact", "subgrams"])}
         if r.random() < 0.3:
             c.params["min_occurrences"] = 2
         if r.random() < 0.3:
             c.params["mask_string"] = "MASK"
         if r.random() < 0.2:
             c.params["max_document_frequency"] = 0.9
-        c.X = tokens(c) * (2 if c.params.get("min_occurrences") else 1)
-        c.X2 = tokens(c, alphabet=ALPHA[:4] + ["zz"]) + [[]]
+        # documents shorter than, equal to and longer than ngram_size
+        short = [[r.choice(ALPHA[:3]) for _ in range(k)] for k in (1, 2, 2, 3)]
+        c.X = (tokens(c) + short) * (2 if c.params.get("min_occurrences") else 1)
+        c.X2 = tokens(c, alphabet=ALPHA[:4] + ["zz"]) + [[]] + short
         c.make = lambda: V.NgramVectorizer(**c.params)
     elif name == "SkipgramVectorizer":
         c.params = {"window_radius": r.choice([1, 2, 3, 8]), "window_function": r.choice(["fixed", "variable"]),
@@ -242,7 +244,7 @@ def build(name, seed):
         c.exact = False
         c.rtol = 1e-8
     elif name in ("WassersteinVectorizer", "SinkhornVectorizer", "ApproximateWassersteinVectorizer"):
-        n, m, d = r.randint(3, 10), r.randint(3, 9), r.randint(2, 4)
+        n, m, d = r.randint(3, 14), r.randint(3, 9), r.randint(2, 4)
         M = c.np.rand(n, m) * (c.np.rand(n, m) > 0.3)
         M[M.sum(axis=1) == 0, 0] = 1.0
         n2 = r.randint(1, 7)
@@ -255,7 +257,7 @@ def build(name, seed):
         if name == "WassersteinVectorizer":
             ref = r.randint(2, 4)
             c.params = {"metric": metric, "reference_size": ref, "n_components": min(n, ref * d),
-                        "random_state": r.randint(0, 100), "memory_size": r.choice(["2G", "1k", "4k"]),
+                        "random_state": r.randint(0, 100), "memory_size": r.choice(["2G", "0.3k", "1k", "4k"]),
                         "method": r.choice(["LOT_exact", "LOT_exact", "LOT_sinkhorn"])}
             c.params["input_method"] = r.choice(["spmatrix", "spmatrix", "lil"]) if c.params["method"] == "LOT_exact" else "spmatrix"
             c.tr_kw = {"vectors": vecs}
@@ -264,7 +266,7 @@ def build(name, seed):
         elif name == "SinkhornVectorizer":
             ref = r.randint(2, 4)
             c.params = {"metric": metric, "reference_size": ref, "n_components": min(n, ref * d),
-                        "random_state": r.randint(0, 100), "memory_size": r.choice(["2G", "1k"]),
+                        "random_state": r.randint(0, 100), "memory_size": r.choice(["2G", "0.3k", "0.5k", "1k"]),
                         "chunk_size": r.choice([32, 1, 2, 3])}
             c.tr_kw = {"vectors": vecs}
             c.make = lambda: V.SinkhornVectorizer(**c.params)
